@@ -300,6 +300,8 @@ var topRules = []topRule{
 		good: "import g from lib;\nlet f = 1;\nfn main() { println(f, g()); }\n", bad: "import f from lib;\nlet f = 1;\nfn main() { println(f); }\n"},
 	{name: "list-literal-function-elements", good: "fn f(x: int) -> int { x }\nfn g(x: int) -> int { x + 1 }\nfn main() { let l = [f, g, fn(x: int) -> int { x + 2 }]; println(l[1](1), l[2](1)); }\n",
 		bad: "fn f(x: int) -> int { x }\nfn g(x: str) -> int { 1 }\nfn main() { let l = [f, g]; println(l[0](1)); }\n"},
+	{name: "duplicate-parameter-singleton-and-normal", good: "$S = { n: int };\nfn f(a: $S, b: int) -> int { a.n + b }\nfn main() { println(f(1)); }\n", bad: "$S = { n: int };\nfn f(a: $S, a: int) -> int { a.n }\nfn main() { println(f(1)); }\n"},
+	{name: "duplicate-parameter-two-singletons", good: "$S = { n: int };\n$T = { m: int };\nfn f(a: $S, b: $T) -> int { a.n + b.m }\nfn main() { println(f()); }\n", bad: "$S = { n: int };\n$T = { m: int };\nfn f(a: $S, a: $T) -> int { a.n }\nfn main() { println(f()); }\n"},
 	{name: "duplicate-parameter", good: "fn f(a: int, b: int) -> int { a + b }\nfn main() { println(f(1, 2)); }\n", bad: "fn f(a: int, a: int) -> int { a }\nfn main() { println(f(1, 2)); }\n"},
 	{name: "duplicate-lambda-parameter", good: "fn main() { let l = fn(a: int, b: int) -> int { a + b }; println(l(1, 2)); }\n", bad: "fn main() { let l = fn(a: int, a: int) -> int { a }; println(l(1, 2)); }\n"},
 	{name: "duplicate-object-type-field", good: "type T = { a: int, b: int };\nfn main() { let v: T = new { a: 1, b: 2 }; println(v.a); }\n", bad: "type T = { a: int, a: int };\nfn main() { println(1); }\n"},
